@@ -156,7 +156,10 @@ def run(module: str, cfg: str | None = None, *, workdir: str | None = None,
         e = dict(os.environ)
         e.update(env or {})
         # the default heap (25% of 62 GB) costs minutes of sys time in page faults: cap it
-        e["JAVA_TOOL_OPTIONS"] = (os.environ.get("VERIF_JAVA_OPTS", "-Xmx6g -Xms512m") + " " + (java_opts or "")).strip()
+        # (TLC creates an empty tlc-<n> directory in java.io.tmpdir at every start and leaves it there: keep it inside the scratch directory)
+        jtmp = os.path.join(wd, "_jtmp")
+        os.makedirs(jtmp, exist_ok=True)
+        e["JAVA_TOOL_OPTIONS"] = (os.environ.get("VERIF_JAVA_OPTS", "-Xmx6g -Xms512m") + f" -Djava.io.tmpdir={jtmp} " + (java_opts or "")).strip()
         t0 = time.time()
         try:
             p = subprocess.run(cmd, cwd=wd, env=e, capture_output=True, text=True, timeout=timeout)
